@@ -381,7 +381,8 @@ CONTRACTS.update({
     "PartitioningF.get_root_name": dict(params=["self", "rank"], returns="str", assumed=True, observer=True),
     "PartitioningF.get_final_rank_id": dict(params=["self", "init_ranks", "rank"], returns="str", assumed=True, observer=True),
     "FlowGraph.__build_project_interval": dict(
-        requires=["rank[:-1] + '1' in self.iter_map"],
+        # (that iter_map has an entry for the outer level is a fact about the history of calls - the outer loop was
+        #  processed earlier; a missing key is an implicit KeyError, which no contract here constrains)
         modifies=["self.graph.g_edges[]"],
         raises={"AssertionError": None, "ValueError": None},
         local_kinds={"tranks": "List[Any]", "matches": "List[Any]", "trans": "Any", "g_fn": "List[str]"},
@@ -392,7 +393,7 @@ CONTRACTS.update({
         },
         ghost_entry="g_fn = []\n",
         ghost_after={"fiber_name = tname.lower() + '_' + trank_root + '1'": "g_fn = g_fn + [trank_root]\n"},
-        ensures_env="exit",
+        ensures_env="exit", caller_ensures=["nothing_removed"],
         ensures=[
             ("interval_between_outer_loop_eager_inputs_and_inner_loop",
              "(LoopNode(rank1), IntervalNode(rank0)) in self.graph.g_edges and "
@@ -582,6 +583,88 @@ CONTRACTS.update({
                                   "implies(len(partitioning) > 1, (swizzle_node, part_node) in self.graph.g_edges and isinstance(swizzle_node, SwizzleNode) "
                                   "and cast(SwizzleNode, swizzle_node).tensor == root and cast(SwizzleNode, swizzle_node).type_ == 'partitioning')"),
                          ("res", "all((part_node, RankNode(root, part.partition_names(partitioning, False)[d])) in self.graph.g_edges for d in range(k2))")]),
+        },
+    ),
+})
+
+
+# ---------------------------------------------------------------- graph construction: the fibers around one loop
+# FlowGraph.__build_fiber_nodes, for the loop rank r = peek_concord()[0] and the tensors co-iterated there:
+#   FiberNode(fiber of t before the loop) -> LoopNode(r) for every such t, LoopNode(r) -> FiberNode(fiber of t inside the
+#   loop) for every tensor pop_concord() hands back; for every discordant access (ranks, t):
+#   FiberNode(fiber of t) -> GetPayloadNode(t, ranks), and GetPayloadNode(t, ranks) -> FiberNode(fiber of t afterwards).
+# Fiber names are whatever Tensor.fiber_name() says at that moment (tensor state is advanced by IterationGraph: assumed);
+# the nodes are captured in ghost lists, so the statement is about WHICH edges exist, not about the spelling.
+# The first loop (dynamic partitionings hooked up through __connect_dyn_part, which is under its own contract) is
+# abstracted: the frame language cannot say "the lists stored in flatten_info", so its effect is modelled as an arbitrary
+# change of the edge set only (flatten_info is not read again in this function).
+_FB = "all((g_in[j], LoopNode(g_r)) in self.graph.g_edges and isinstance(g_in[j], FiberNode) for j in range(len(g_in)))"
+_PF = ("len(g_pf) == len(g_pn) and all((g_pf[j], g_pn[j]) in self.graph.g_edges and isinstance(g_pf[j], FiberNode) and "
+       "isinstance(g_pn[j], GetPayloadNode) for j in range(len(g_pn)))")
+_QF = ("len(g_qf) == len(g_qn) and all((g_qn[j], g_qf[j]) in self.graph.g_edges and isinstance(g_qf[j], FiberNode) and "
+       "isinstance(g_qn[j], GetPayloadNode) for j in range(len(g_qn)))")
+_LR = ("len(g_pt) == len(g_pn) and len(g_pr) == len(g_pn) and "
+       "all(all((LoopNode(part.get_final_rank_id(g_pt[j].get_init_ranks(), g_pr[j][i])), g_pn[j]) in self.graph.g_edges "
+       "        for i in range(len(g_pr[j]))) for j in range(%s))")
+_LN = "all((LoopNode(g_r), g_out[j]) in self.graph.g_edges and isinstance(g_out[j], FiberNode) for j in range(len(g_out)))"
+CONTRACTS.update({
+    "IrEquation.get_tensors": dict(params=["self"], returns="List[TensorF]", assumed=True, observer=True),
+    "TensorF.peek": dict(params=["self"], returns="Optional[str]", assumed=True, pure=True),
+    "TensorF.peek_clean": dict(params=["self"], returns="Optional[str]", assumed=True, observer=True),
+    "TensorF.get_is_output": dict(params=["self"], returns="bool", assumed=True, pure=True),
+    "TensorF.get_init_ranks": dict(params=["self"], returns="List[str]", assumed=True, observer=True),
+    "PartitioningF.get_dyn_parts": dict(params=["self"], returns="Set[Any]", assumed=True, observer=True),
+    "PartitioningF.split_rank_name": dict(params=["self", "rank"], returns="Tuple[str, str]", assumed=True, observer=True),
+    "IterationGraphF.peek_concord": dict(params=["self"], returns="Tuple[Optional[str], List[TensorF]]", assumed=True, pure=True),
+    "IterationGraphF.pop_concord": dict(params=["self"], returns="Tuple[Optional[str], List[TensorF]]", assumed=True, modifies=[]),
+    "IterationGraphF.peek_discord": dict(params=["self"], returns="List[Tuple[Tuple[str, ...], TensorF]]", assumed=True, pure=True),
+    "IterationGraphF.pop_discord": dict(params=["self"], returns="List[Tuple[Tuple[str, ...], TensorF]]", assumed=True, modifies=[]),
+    "FlowGraph.__build_fiber_nodes": dict(
+        kinds={"iter_graph": "IterationGraphF", "flatten_info": "Dict[str, List[Any]]"},
+        modifies=["self.graph.g_edges[]", "self.iter_map[]"],
+        raises={"ValueError": None, "AssertionError": None},
+        local_kinds={"self.iter_map[rank] =": "List[str]", "g_pr": "List[Tuple[str, ...]]", "g_pt": "List[TensorF]", "g_t1": "List[TensorF]", "g_t2": "List[TensorF]"},
+        abstract_stmts={"self.iter_map[rank] = ": "the names of the non-output tensors co-iterated at this rank (filtered comprehension)"},
+        abstract_loops={0: dict(modifies=["self.graph.g_edges[]"],
+                                why="hooks up dynamic partitionings through __connect_dyn_part (under its own contract); "
+                                    "modelled as an arbitrary change of the edge set - the lists in flatten_info that it "
+                                    "also rewrites are not read again here and are assumed not to alias IterationGraph's lists")},
+        ghost_entry="g_in = []\ng_out = []\ng_r = ''\ng_pf = []\ng_pn = []\ng_qf = []\ng_qn = []\ng_pt = []\ng_pr = []\ng_t1 = []\ng_t2 = []\n",
+        ghost_after={
+            "if rank is None": "g_r = rank\n",
+            # the lists the iteration graph hands out for this loop rank: every element must get its edge
+            "rank, tensors = iter_graph.peek_concord()": "g_t1 = tensors\n",
+            "_, tensors = iter_graph.pop_concord()": "g_t2 = tensors\n",
+            "fiber_node = FiberNode(tensor.fiber_name())": "g_in = g_in + [fiber_node]\n",
+            "new_fnode = FiberNode(tensor.fiber_name())": "g_out = g_out + [new_fnode]\n",
+            # (_arg0 / _arg1: the values the call receives; Tensor.fiber_name() is modelled as state-dependent, so it cannot be
+            #  re-read in ghost code)
+            "self.graph.add_edge(FiberNode(tensor.fiber_name()), get_payload_node)":
+                "g_pf = g_pf + [_arg0]\ng_pn = g_pn + [_arg1]\ng_pt = g_pt + [tensor]\ng_pr = g_pr + [ranks]\n",
+            "self.graph.add_edge(get_payload_node, FiberNode(tensor.fiber_name()))":
+                "g_qn = g_qn + [_arg0]\ng_qf = g_qf + [_arg1]\n",
+        },
+        ensures_env="exit",
+        ensures=[("fiber_before_loop", _FB + " and len(g_in) == len(g_t1)"), ("loop_before_new_fiber", _LN + " and len(g_out) == len(g_t2)"),
+                 ("fiber_before_its_discordant_payload_access", _PF + " and len(g_pn) == len(d3)"),
+                 ("every_rank_of_a_discordant_access_has_its_loop_before_the_payload_access", _LR % "len(g_pn)"),
+                 ("payload_access_before_the_fiber_it_yields", _QF + " and len(g_qn) == len(d5)")],
+        loops={
+            1: dict(idx="k1", enum="c1", modifies=["self.graph.g_edges[]"], ghost_vars=["g_in"],
+                    inv=[("rank1", "g_r == rank and len(g_in) == k1 and same_ref(c1, g_t1)"), ("fiber_before_loop", _FB)]),
+            2: dict(idx="k2", enum="c2", modifies=["self.graph.g_edges[]"], ghost_vars=["g_out"],
+                    inv=[("rank2", "g_r == rank and len(g_out) == k2 and len(g_in) == len(g_t1) and same_ref(c2, g_t2)"), ("fiber_before_loop", _FB), ("loop_before_new_fiber", _LN)]),
+            3: dict(idx="k3", modifies=["self.graph.g_edges[]"], ghost_vars=["g_pf", "g_pn", "g_pt", "g_pr"],
+                    enum="d3",
+                    inv=[("counts", "len(g_in) == len(g_t1) and len(g_out) == len(g_t2)"), ("fiber_before_loop", _FB), ("loop_before_new_fiber", _LN), ("payload3", _PF + " and len(g_pn) == k3"), ("ranks3", _LR % "k3")]),
+            4: dict(idx="k4", modifies=["self.graph.g_edges[]"],
+                    inv=[("counts", "len(g_in) == len(g_t1) and len(g_out) == len(g_t2)"), ("fiber_before_loop", _FB), ("loop_before_new_fiber", _LN), ("p4len", "len(g_pf) == len(g_pn) and len(g_pn) == k3 + 1 and same_ref(g_pt[k3], tensor) and g_pr[k3] == ranks and g_pn[k3] == get_payload_node"),
+                         ("ranks4", _LR % "k3"),
+                         ("ranks4cur", "all((LoopNode(part.get_final_rank_id(tensor.get_init_ranks(), ranks[i])), get_payload_node) in self.graph.g_edges for i in range(k4))"),
+                         ("p4edge", "all((g_pf[j], g_pn[j]) in self.graph.g_edges for j in range(len(g_pn)))"),
+                         ("p4ty", "all(isinstance(g_pf[j], FiberNode) and isinstance(g_pn[j], GetPayloadNode) for j in range(len(g_pn)))")]),
+            5: dict(idx="k5", enum="d5", modifies=["self.graph.g_edges[]"], ghost_vars=["g_qf", "g_qn"],
+                    inv=[("counts", "len(g_in) == len(g_t1) and len(g_out) == len(g_t2)"), ("fiber_before_loop", _FB), ("loop_before_new_fiber", _LN), ("payload5", _PF + " and len(g_pn) == len(d3)"), ("ranks5", _LR % "len(g_pn)"), ("yield5", _QF + " and len(g_qn) == k5")]),
         },
     ),
 })
